@@ -91,6 +91,13 @@ def udp(src, dst, sp, dp, pl, ulen=None, cs=None):
     return h[:6] + struct.pack("!H", cs) + pl
 
 
+def udp_steer_sport(src, dst, dp, pl):
+    """A source port for which the datagram's checksum computes to zero, i.e. is transmitted as 0xFFFF (RFC 768)."""
+    h = struct.pack("!HHHH", 0, dp, 8 + len(pl), 0)
+    s = csum_fold(csum_sum(pseudo(src, dst, P_UDP, 8 + len(pl)) + h + pl))
+    return (0xFFFF - s) & 0xFFFF
+
+
 def tcp(src, dst, sp, dp, seq, ack, flags, pl=b"", off=5, win=8192, opts=b"", urg=0, cs=None):
     h = struct.pack("!HHIIHHHH", sp, dp, seq & 0xFFFFFFFF, ack & 0xFFFFFFFF, ((off & 15) << 12) | (flags & 0x1FF), win, 0, urg) + opts
     if cs is None:
@@ -196,8 +203,11 @@ class Endp:
                                                          frag=r.choice([0, 0x4000]), tos=r.getrandbits(8), opts=o, ihl=5 + len(o) // 4))
         return eth(self.smac, self.cmac, ET_IP4, ip4(self.cip, self.sip, proto, l4, ttl=self.ttl))
 
-    def udp(self, sp, dp, pl):
-        return self.l3(P_UDP, udp(self.cip, self.sip, sp, dp, pl))
+    def udp(self, sp, dp, pl, cs=None):
+        r = self.fuzz
+        if r is not None and cs is None and not self.v6 and r.random() < 0.03:
+            cs = 0                                       # IPv4: a sender may transmit no checksum at all
+        return self.l3(P_UDP, udp(self.cip, self.sip, sp, dp, pl, cs=cs))
 
     def tcp(self, sp, dp, seq, ack, flags, pl=b"", **kw):
         r = self.fuzz
